@@ -34,7 +34,8 @@ def main():
             return
         if kind == "apsensing":
             from dtscalibration import read_apsensing_files
-            ds = read_apsensing_files(directory=directory, silent=True, load_in_memory=opts.get("load_in_memory", True), timezone_netcdf=opts.get("timezone_netcdf", "UTC"))
+            ds = read_apsensing_files(directory=directory, silent=True, load_in_memory=opts.get("load_in_memory", True), timezone_netcdf=opts.get("timezone_netcdf", "UTC"),
+                                      timezone_input_files=opts.get("timezone_input_files", "UTC"))
         elif kind == "silixa":
             from dtscalibration import read_silixa_files
             ds = read_silixa_files(directory=directory, silent=True, load_in_memory=opts.get("load_in_memory", True), timezone_netcdf=opts.get("timezone_netcdf", "UTC"))
